@@ -27,7 +27,7 @@ TRUSTED = [
     "union is compared at record-identity level when the exact comparison fails (two buckets may keep different key objects of one identity)",
     "ServiceInfo construction/validation (service_type_name) and ipaddress parsing are driven, not modelled; interface_index (None or 3) is driven and the "
     "model hard-wires scope_id = None in address records (what _dns_addresses builds today); registered infos always have a server "
-    "(set_server_if_missing) as _add asserts -- an update with a server-less ServiceInfo is driven on the simulated host only (finding D26); "
+    "(set_server_if_missing) as _add asserts -- update and unregister with a server-less ServiceInfo are driven on the simulated host only (D26, repaired); "
     "queries are parsed with and without a scope id (IPv4 / IPv6 socket) and simulated hosts have one IPv4 or one IPv6 socket, never both",
     "wire order of answers (sorted by name) and of additionals (set iteration order) is not compared; sets are compared as sets",
     "the pending-reply layer of the Lean model (Zc.RHost: replies computed but not yet transmitted, C03_transmitted_current_*) is an abstraction of the "
@@ -386,7 +386,7 @@ def build_msgs(op, want_packets=False, now=None):
     scope = op.get("scope")
     source = ("10.9.9.9", 5353) if scope is None else (("fe80::9" if scope else "2001:db8::9"), 5353)
     for m in op["msgs"]:
-        out = DNSOutgoing(const._FLAGS_QR_QUERY)
+        out = DNSOutgoing(const._FLAGS_QR_QUERY | (const._FLAGS_TC if m.get("tc") else 0))
         check_alphabet([name for name, _, _ in m["qs"]])
         for name, ty, cl in m["qs"]:
             out.add_question(DNSQuestion(name, ty, cl))
@@ -805,11 +805,17 @@ def exec_wire(ops, seed, v6=False):
                 line = msg_line(msgs)
                 svcs = [fields(i) for i in book.values()]
                 start = len(sim.net.log)
-                host.deliver(bytes(packets[0]), src_of(op, op.get("port", 5353)))
+                src = src_of(op, op.get("port", 5353))
+                for n, pk in enumerate(packets):
+                    # a train: every packet but the last carries the TC bit, the listener holds them (400-500 ms) until the last arrives
+                    if n:
+                        await sim.sleep_ms(op.get("train_gap", 50))
+                    host.deliver(bytes(pk), src)
                 await sim.sleep_ms(2600)
                 impl = "wire"
-                q = {"svcs": svcs, "qs": list(msgs[0].questions), "known": list(msgs[0].answers()) if not msgs[0].is_probe() else [], "pkts": grab(start),
-                     "scope": scope_of(op), "ettl": const._DNS_OTHER_TTL, "in_scope": all(x.class_ == 1 for x in msgs[0].questions), "lost": set(lost)}
+                q = {"svcs": svcs, "qs": [x for m in msgs for x in m.questions], "known": [a for m in msgs if not m.is_probe() for a in m.answers()], "pkts": grab(start),
+                     "scope": scope_of(op), "ettl": const._DNS_OTHER_TTL, "in_scope": all(x.class_ == 1 for m in msgs for x in m.questions), "lost": set(lost),
+                     "legacy": src[0] if op.get("port", 5353) != 5353 else None}
             elif k == "QB":
                 # a burst: 2-3 different query datagrams (same questions, different bytes) less than a second apart -- the later ones
                 # find the record multicast in the last second (flood protection: the reply is delayed, not dropped)
@@ -832,15 +838,17 @@ def exec_wire(ops, seed, v6=False):
                 start = len(sim.net.log)
                 svcs_before = [fields(i) for i in book.values()]
                 qsteps = []
+                qmarks = []
                 for qop, gap in ([(op["pre"], op.get("pre_gap", 300))] if op.get("pre") else []) + [(op["query"], op["delay"])]:
                     msgs, packets = parse(qop)
+                    qmarks.append(len(sim.net.log))
                     qsteps.append({"op": qop, "line": msg_line(msgs), "impl": "wire", "msgs": msgs})
                     host.deliver(bytes(packets[0]), src_of(qop, 5353))
                     await sim.sleep_ms(gap)
                 mark = len(sim.net.log)
                 pending = pending_snapshot(zc)
                 # ---- the change block: no await between the attribute writes and the registry call
-                futs, csteps, changed, kinds = [], [], {}, []
+                futs, csteps, changed, kinds, foreign, raised = [], [], {}, [], {}, {}
                 for c in op["change"]:
                     ck = c["op"]
                     if ck == "M":
@@ -858,7 +866,7 @@ def exec_wire(ops, seed, v6=False):
                         if info.key in book:
                             changed.setdefault(info.key, fields(book[info.key]))
                         cline = "U " + svc_line(fields(info))
-                        futs.append(await zc.async_update_service(info))
+                        futs.append((info.key, await zc.async_update_service(info)))
                         book[info.key] = info
                         kinds.append("update")
                     elif ck == "X":
@@ -870,13 +878,30 @@ def exec_wire(ops, seed, v6=False):
                             if i.key in book:
                                 changed.setdefault(i.key, fields(book[i.key]))
                             handle = i
-                            if c.get("copy") and book.get(i.key) is i:
-                                # an equal copy: a new ServiceInfo built from the current values of the registered one
+                            if book.get(i.key) is i and (c.get("copy") or c.get("other") or c.get("bare")):
+                                # another object for the same name -- what an application that did not keep the registered ServiceInfo builds
                                 f = fields(i)
-                                handle = make_info({"type": f["type"], "name": f["name"], "server": f["server"], "port": f["port"], "weight": f["weight"],
-                                                    "priority": f["priority"], "text": f["text"].hex(), "httl": f["httl"], "ottl": f["ottl"],
-                                                    "addrs": [a.hex() for a in f["v4"] + f["v6"]], "ifindex": None})
-                            futs.append(await zc.async_unregister_service(handle))
+                                spec = {"type": f["type"], "name": f["name"], "server": f["server"], "port": f["port"], "weight": f["weight"],
+                                        "priority": f["priority"], "text": f["text"].hex(), "httl": f["httl"], "ottl": f["ottl"],
+                                        "addrs": [a.hex() for a in f["v4"] + f["v6"]], "ifindex": None}
+                                if c.get("bare"):
+                                    from zeroconf import ServiceInfo
+
+                                    handle = ServiceInfo(f["type"], f["name"])      # name and type only
+                                    foreign[i.key] = None
+                                elif c.get("other"):
+                                    handle = make_info(dict(spec, **c["other"]))     # other port / text / addresses / TTLs
+                                    if all_own([fields(handle)], const._DNS_OTHER_TTL) != all_own([f], const._DNS_OTHER_TTL):
+                                        foreign[i.key] = fields(handle)
+                                elif f["server"] == f["name"]:
+                                    # an equal copy that leaves `server=` to its documented default, as the registered one did
+                                    handle = make_info(dict(spec, server=None), set_server=False)
+                                else:
+                                    handle = make_info(spec)                         # an equal copy
+                            try:
+                                futs.append((i.key, await zc.async_unregister_service(handle)))
+                            except Exception as ex:  # noqa: BLE001
+                                raised[i.key] = type(ex).__name__
                             book.pop(i.key, None)
                         kinds.append("unregister")
                     else:
@@ -892,8 +917,11 @@ def exec_wire(ops, seed, v6=False):
                     psteps.append({"op": qop, "line": msg_line(msgs), "impl": "wire", "msgs": msgs})
                     host.deliver(bytes(packets[0]), src_of(qop, 5353))
                 await sim.sleep_ms(2600)
-                for f in futs:
-                    await f
+                for fkey, f in futs:
+                    try:
+                        await f
+                    except Exception as ex:  # noqa: BLE001  (the announcement / goodbye task of the call raised)
+                        raised[fkey] = type(ex).__name__
                 pkts = grab(start, mark)
                 allq = [x for z in qsteps + psteps for x in z["msgs"][0].questions]
                 svcs_after = [fields(i) for i in book.values()]
@@ -904,9 +932,11 @@ def exec_wire(ops, seed, v6=False):
                 for n, qs_ in enumerate(qsteps):
                     m0 = qs_.pop("msgs")[0]
                     qs_["q"] = {"split": (n, len(qsteps)), "svcs": svcs_before, "svcs_after": [fields(i) for i in book.values()], "changed": changed, "kinds": kinds,
+                                "foreign": foreign, "raised": raised, "own_pkts": grab(qmarks[n]),
                                 "qs": list(m0.questions), "allqs": allq,
                                 "known": [], "pkts": pkts if n == len(qsteps) - 1 else [], "delay": op["delay"], "pending": pending,
                                 "scope": scope_of(op["query"]), "ettl": const._DNS_OTHER_TTL, "in_scope": True, "lost": set(lost)}
+                qsteps[-1]["q"]["per_query"] = [(z["q"]["qs"], z["q"]["own_pkts"]) for z in qsteps]
                 steps.extend(qsteps)
                 steps.extend(csteps)
                 steps.extend(psteps)
@@ -976,6 +1006,17 @@ def wire_oracle(q, complete=True):
     observed = [(rtuple(a), []) for a in union.values()]
     found = oracle(svcs, qs, known, observed, q["ettl"], qs_sound=qs_sound)
     found = classify_scope(found, svcs, qs, seen, observed, q["ettl"], q.get("scope"), qs_sound=qs_sound)
+    if q.get("legacy"):
+        # a one-shot (legacy) querier listens on its own port: the records it is owed must be in the unicast reply sent to it
+        direct = {}
+        for p in q["pkts"]:
+            if p["dst"] == q["legacy"]:
+                for a in p["answers"]:
+                    direct[rline(a)] = a
+        owed = oracle(svcs, qs, known, [(rtuple(a), []) for a in direct.values()], q["ettl"], qs_sound=qs_sound)
+        found = [x for x in found if not x[0].startswith("C03:missing-answer")] + \
+                [(sig + ":legacy-unicast", what + " -- in the unicast reply to a legacy querier (source port other than 5353)", d)
+                 for sig, what, d in owed if sig.startswith("C03:missing-answer")]
     if not complete:
         found = [x for x in found if not x[0].startswith("C03:missing-answer")]
     if q.get("post"):
@@ -1020,8 +1061,10 @@ SIG_D20 = "C03:queued-answer-superseded-by-update"
 SIG_D20B = "C03:queued-enumeration-pointer-after-unregister"
 SIG_D20C = "C03:queued-shared-host-record-after-unregister"
 SIG_D26 = "C03:update-without-server-loses-service"
-# signatures of the recorded findings (known_findings.json): the search goes on past them, each is reported at most three times per run
-KNOWN_SIGS = {SIG_D20, SIG_D20B, SIG_D20C, SIG_D25, SIG_D26}
+SIG_R3A = "C03:unregister-through-foreign-handle"
+# signatures of the recorded findings (known_findings.json, kind=finding): the search goes on past them, each is reported at most three
+# times per run.  D25 and D26 are repaired in /repo (kind=fixed): their signatures are ordinary violations again.
+KNOWN_SIGS = {SIG_D20, SIG_D20B, SIG_D20C, SIG_R3A}
 
 
 def fresh_violation(res):
@@ -1042,12 +1085,34 @@ def change_oracle(q):
     after = all_own(q["svcs_after"], q["ettl"])
     old = all_own(list(q["changed"].values()), q["ettl"])
     goodbye = {t[:5] + t[6:] for t in old}
+    # R3-C03-a's input class: the service was unregistered through another ServiceInfo whose records differ from the registered ones
+    # (`foreign`: key -> the handle's fields, None for a bare handle).  The code purges the queues and says goodbye with the
+    # *handle's* records: what differs is not withdrawn, and a goodbye goes out for records that were never registered.
+    foreign = q.get("foreign") or {}
+    handle_own = all_own([f for f in foreign.values() if f is not None], q["ettl"])
+    foreign_old = all_own([f for k, f in q["changed"].items() if k in foreign], q["ettl"])
+    what_r3a = ("async_unregister_service was handed a ServiceInfo whose records differ from the registered service's: the queues are purged and the "
+                "goodbye is built from the handle, so %s (R3-C03-a)")
+    for k, exc in (q.get("raised") or {}).items():
+        if k in foreign:
+            bad.append((SIG_R3A, what_r3a % ("the call raised %s after the registry had dropped the service; nothing was purged, no goodbye was sent" % exc), k))
+        else:
+            bad.append(("C03:unregister-raised:%s" % exc, "async_unregister_service raised through a handle that describes the registered service", k))
     pending = q.get("pending")
     budget, padds = {}, {}
     for g in pending or []:
         for t, adds in g.items():
             budget[t] = budget.get(t, 0) + 1
             padds.setdefault(t, set()).update(adds)
+    # ---- the services the change does not touch are owed their records whatever happens to the queues at the change (reading 10's
+    # "no completeness in that window" is about the changed service, whose new records the update announces): each query of the op,
+    # judged on the datagrams sent after its own arrival
+    untouched = [f for f in q["svcs"] if f["name"].lower() not in q["changed"] and f in q["svcs_after"]]
+    for qs_n, pk_n in q.get("per_query") or []:
+        found = oracle(untouched, [(x.name, x.type) for x in qs_n], [], [(fixu(rtuple(a)), []) for p in pk_n for a in p["answers"]], q["ettl"],
+                       qs_sound=[(x.name, x.type) for x in q["allqs"]])
+        bad += [(sig + ":other-service", what + " -- a service that the update/unregister of another one does not touch", d)
+                for sig, what, d in found if sig.startswith("C03:missing-answer") and d[0] != "n"]
     # ---- datagrams sent before the change: replies to the questions asked, in the state before
     pre = [p for p in q["pkts"] if not p["after"]]
     if pre:
@@ -1072,6 +1137,8 @@ def change_oracle(q):
                 else:
                     bad.append(("C03:stale-record-after-update:%s" % t[0], "a datagram that was not waiting in a queue when async_update_service was called "
                                 "(an announcement of the update, or a reply computed afterwards) carries the service's superseded record", t))
+            elif t[5] == 0 and "unregister" in q["kinds"] and t[:5] + t[6:] in {x[:5] + x[6:] for x in handle_own}:
+                bad.append((SIG_R3A, what_r3a % "a goodbye went out for a record that was never registered", t))
             elif t in old:
                 hosts_left = {f["server"].lower() for f in q["svcs_after"]}
                 shared = any(f["server"].lower() in hosts_left and t in set(own_records(f, q["ettl"])[3] + own_records(f, q["ettl"])[4])
@@ -1082,6 +1149,10 @@ def change_oracle(q):
                 elif queued and t[0] in ("a", "n") and shared:
                     bad.append((SIG_D20C, "an address/NSEC record of the withdrawn service (its TTL, its instance name), queued before async_unregister_service, "
                                 "went out afterwards: with another service on the host these records are neither purged nor said goodbye to", t))
+                elif t in foreign_old and t not in handle_own:
+                    # one of the records async_unregister_service withdraws (PTR/SRV/TXT, addresses and NSEC of an unshared host) -- but
+                    # it withdrew the handle's, which differ
+                    bad.append((SIG_R3A, what_r3a % "a record of the registered service that the handle does not have went out after the unregister", t))
                 else:
                     bad.append(("C03:queued-answer-after-unregister:%s" % t[0], "a datagram sent after async_unregister_service carries a record of the withdrawn service", t))
             else:
@@ -1129,6 +1200,13 @@ def gen_change_history(rng):
         if live and rng.random() < 0.4:
             o = rng.choice(list(live.values()))
             spec["server"] = o["server"] if o["server"] else o["name"]
+        if live and rng.random() < 0.4:
+            # two services of one type: a PTR reply for the type holds both pointers in one queued group
+            o = rng.choice(list(live.values()))
+            spec["type"] = o["type"]
+            spec["name"] = spec["name"].split(".")[0] + "." + base_type(o["type"])
+            if any(x["name"].lower() == spec["name"].lower() for x in live.values()):
+                continue
         ops.append({"op": "R", "svc": spec, "obj": nid})
         live[nid] = dict(spec)  # a copy: later writes are tracked here, the op keeps what was registered
         nid += 1
@@ -1136,7 +1214,10 @@ def gen_change_history(rng):
         if not live:
             break
         i = rng.choice(list(live))
-        f = spec_fields(live[i])
+        # the questions are about the service that is going to change -- or, one time in three, about another one, whose reply
+        # must come through whatever the change does to the queues
+        qi = rng.choice([j for j in live if j != i]) if len(live) > 1 and rng.random() < 0.35 else i
+        f = spec_fields(live[qi])
         qu = 0x8000 if rng.random() < 0.15 else 0
         shape = rng.choice(["srv+txt", "ptr", "txt", "any", "ptr+a", "a+aaaa", "enum", "srv"])
         qs = shaped_questions(f, shape, qu)
@@ -1159,7 +1240,17 @@ def gen_change_history(rng):
             live[nid] = dict(spec)  # a copy: later writes are tracked here, the op keeps what was registered
             nid += 1
         else:
-            op["change"] = [{"op": "X", "objs": [i], "copy": rng.random() < 0.3}]
+            x = {"op": "X", "objs": [i]}
+            h = rng.random()
+            if h < 0.3:
+                x["copy"] = True          # an equal copy of the registered object
+            elif h < 0.5:
+                # another ServiceInfo for the same name with other fields (an application that rebuilt it from its configuration)
+                kind = rng.choice(["port", "text", "addrs", "httl", "ottl"])
+                x["other"] = {kind: new_value(rng, live[i], kind)}
+            elif h < 0.56:
+                x["bare"] = True          # ServiceInfo(type, name): all an application needs to know to name the service
+            op["change"] = [x]
             del live[i]
         if live and rng.random() < 0.5:
             op["post"] = post_queries(rng, live, rng.choice([0, 5, 50, 300, 700]))
@@ -1176,6 +1267,60 @@ def post_queries(rng, live, first_gap):
         qs = shaped_questions(f, rng.choice(["ptr", "txt", "srv+txt", "any", "ptr+a", "srv"])) + [["nosuch%d.local." % n, T_A, 1]]
         posts.append([first_gap if n == 0 else rng.choice([100, 400, 700, 1500]), plain_query(qs)])
     return posts
+
+
+def gen_bystander_history(rng):
+    """a reply that holds records of two services is waiting in a queue when ONE of them is updated or unregistered: whatever the call
+    does to the queues (purge the withdrawn records, or -- a tempting repair of D20 -- drop what is queued), the other service's
+    records are owed.  Three services, two of them of one type (one PTR reply group holds both pointers), often on one host; the
+    unregister goes through the registered object, an equal copy, or a copy that leaves `server=` to its default."""
+    ops, live, nid = [], {}, 0
+    base = gen_svc(rng)
+    while len(live) < 3:
+        spec = gen_svc(rng, type_=base["type"] if len(live) < 2 else None)
+        spec["httl"] = rng.choice([120, 4500])
+        spec["ottl"] = rng.choice([4500, 60])
+        if len(live) == 0 and rng.random() < 0.6:
+            spec["server"] = None          # the server name defaults to the instance name
+        elif live and rng.random() < 0.3:
+            o = rng.choice(list(live.values()))
+            spec["server"] = o["server"] if o["server"] else o["name"]
+        if any(x["name"].lower() == spec["name"].lower() for x in live.values()):
+            continue
+        ops.append({"op": "R", "svc": spec, "obj": nid})
+        live[nid] = dict(spec)
+        nid += 1
+    for _ in range(2):
+        if len(live) < 2:
+            break
+        i = 0 if 0 in live and rng.random() < 0.6 else rng.choice(list(live))
+        j = rng.choice([k for k in live if k != i])
+        fx, fy = spec_fields(live[i]), spec_fields(live[j])
+        qs = rng.choice([[[fx["type"], T_PTR, 1], [fy["type"], T_PTR, 1]],
+                         [[fx["name"], T_TXT, 1], [fy["name"], T_TXT, 1]],
+                         [[fx["type"], T_PTR, 1], [fy["name"], T_SRV, 1]],
+                         [[fy["name"], T_ANY, 1], [fx["name"], T_SRV, 1]],
+                         [[fx["name"], T_SRV, 1], [fy["server"], T_A, 1], [fy["type"], T_PTR, 1]]])
+        qs = [list(x) for n, x in enumerate(qs) if x not in qs[:n]]
+        op = {"op": "QC", "query": plain_query(qs), "delay": rng.choice([1, 5, 15, 19])}
+        r = rng.random()
+        if r < 0.4:
+            kind = rng.choice(["port", "text", "ottl"])
+            val = new_value(rng, live[i], kind)
+            live[i][kind] = val
+            op["change"] = [{"op": "M", "obj": i, "mut": [kind, val]}, {"op": "U", "obj": i}]
+        elif r < 0.55:
+            spec = gen_svc(rng, name=live[i]["name"], type_=live[i]["type"])
+            spec["server"] = live[i]["server"]
+            op["change"] = [{"op": "Unew", "svc": spec, "obj": nid}]
+            del live[i]
+            live[nid] = dict(spec)
+            nid += 1
+        else:
+            op["change"] = [{"op": "X", "objs": [i], "copy": rng.random() < 0.65}]
+            del live[i]
+        ops.append(op)
+    return ops
 
 
 def gen_queue_history(rng):
@@ -1273,6 +1418,15 @@ def gen_wire_history(rng):
                                             scope=rng.choice([None, 3, 0])), port=5353))
                 continue
         elif r < 0.91:
+            # a truncated query: the first packet (TC bit) asks, the second one, 10-300 ms later from the same address, lists known answers
+            # and may ask more; the listener answers the assembled train -- every question of every packet, minus every known answer
+            f = spec_fields(live[rng.choice(list(live))])
+            g = spec_fields(live[rng.choice(list(live))])
+            first = {"probe": False, "tc": True, "qs": shaped_questions(f, rng.choice(["ptr", "srv+txt", "any", "ptr+a", "txt"])), "answers": gen_known(rng, [f, g], [], 2)}
+            second = {"probe": False, "qs": shaped_questions(g, rng.choice(["srv", "txt", "a+aaaa"])) if rng.random() < 0.5 else [], "answers": gen_known(rng, [f, g], [], 3)}
+            ops.append({"op": "Q", "ucast": False, "scope": None, "train": True, "train_gap": rng.choice([10, 50, 150, 300]), "msgs": [first, second], "port": 5353})
+            continue
+        elif r < 0.94:
             # async_update_service with a *new* ServiceInfo that has no server= (set_server_if_missing is not called on this path: D26)
             i = rng.choice(list(live))
             spec = dict(gen_svc(rng, name=live[i]["name"], type_=live[i]["type"]), server=None)
@@ -1284,7 +1438,7 @@ def gen_wire_history(rng):
             continue
         ops.append(dict(gen_query(rng, cur_fields(live), fl(past)), port=rng.choice([5353, 5353, 5353, 40000])))
     for o in ops:
-        if o["op"] == "Q":
+        if o["op"] == "Q" and not o.get("train"):
             o["msgs"] = o["msgs"][:1]
             o["msgs"][0]["probe"] = False
             o.pop("pokes", None)
@@ -1760,7 +1914,7 @@ def assess(res, ops, steps, model_line, omodel, olines, label):
 def run(ctx):
     res = C.Result("C03")
     budget = C.Budget(ctx["tier"], 12000, 200000).n
-    wire_budget = C.Budget(ctx["tier"], 25, 400).n
+    wire_budget = C.Budget(ctx["tier"], 36, 400).n
     if ctx["widened"]:
         budget *= 4
         wire_budget *= 2
@@ -1815,7 +1969,8 @@ def run(ctx):
             runs.append((ops, seed, v6, steps, errors))
         for w in range(2 * wire_budget):
             wr = C.rng_for(ctx["seed"], "c03-wire", w)
-            ops = gen_wire_history(wr) if w % 2 == 0 else (gen_queue_history(wr) if w % 4 == 3 else gen_change_history(wr))
+            ops = (gen_wire_history(wr) if w % 2 == 0 else gen_change_history(wr) if w % 4 == 1 else
+                   gen_queue_history(wr) if w % 8 == 3 else gen_bystander_history(wr))
             seed = ctx["seed"] * 100003 + w
             v6 = wr.random() < 0.35   # the host's only socket is an IPv6 socket
             steps, errors = exec_wire(ops, seed, v6)
